@@ -137,6 +137,33 @@ def gen_rounds(seed, tier, run):
                         out.append(f"{op}@{ity} {arr(sh, ev)} {opt(ax)}")
                     kind = "lanescan" if op in SCAN else "lanered"
                     out.append(f"{kind}@{fty} s{hexs(op)} {arr(sh, fv)} {opt(ax)}")
+    # integers no double represents (seeded change C08h: min folded over an f64 copy): extremes / positions exactly,
+    # sums and products with one such value and small companions so that nothing overflows
+    B = 2 ** 53
+    HUGE = [B + 1, B + 3, B + 2, -(B + 1), -(B + 3), 2 ** 62 + 1, 2 ** 63 - 1, 2 ** 63 - 2, -2 ** 63 + 1, -2 ** 63 + 2, 2 ** 60 + 9, 2 ** 60 + 1]
+    for sh in ([3], [4], [2, 3], [3, 2], [2, 2, 2], [2, 1, 3]):
+        n = len(sh)
+        cnt = prod(sh)
+        for ax in [None] + list(range(-n, n)):
+            for rep in range(3):
+                ev = [rng.choice(HUGE) for _ in range(cnt)]
+                if rep == 1:       # all close together above 2^53 (they collapse to one double)
+                    ev = [B + 1 + rng.randrange(6) for _ in range(cnt)]
+                if rep == 2:       # all close together near the ends of the type
+                    ev = [rng.choice([2 ** 63 - 1 - rng.randrange(5), -2 ** 63 + 1 + rng.randrange(5)]) for _ in range(cnt)]
+                for op in ("max", "min", "amax", "amin", "nanmax", "nanmin"):
+                    out.append(f"{op}@i64 {arr(sh, ev)} {opt(ax)}")
+                for op in ("argmax", "argmin", "count_nonzero"):
+                    out.append(f"{op}@i64 {arr(sh, ev)} {opt(ax)} z{rng.choice([0, 1, 2])}")
+            sv = [rng.randint(-3, 3) for _ in range(cnt)]
+            # one huge value per array: no lane can overflow
+            sv[rng.randrange(cnt)] = rng.choice([B + 1, -(B + 1), 2 ** 60 + 1])
+            for op in ("sum", "nansum", "cumsum", "nancumsum"):
+                out.append(f"{op}@i64 {arr(sh, sv)} {opt(ax)}")
+            pv = [rng.choice([1, -1, 1]) for _ in range(cnt)]
+            pv[rng.randrange(cnt)] = rng.choice([B + 1, -(B + 1), 2 ** 60 + 1])
+            for op in ("prod", "nanprod", "cumprod", "nancumprod"):
+                out.append(f"{op}@i64 {arr(sh, pv)} {opt(ax)}")
     # empties
     for op in RED + SCAN:
         out.append(f"{op}@i32 a0: n")
